@@ -76,4 +76,81 @@ structure DriverShape where
 def Pipeline.run (esc pesc : List Char → List Char) (p : Pipeline) (s : List Char) : List Char :=
   applySteps p.steps (match p.base with | .escape => esc s | .partialEscape => pesc s)
 
+/-! ## targets of `tools/extract_fns.py`: the run-time library of the first-order Rust fragment
+
+  A translated function returns `Option α` when it contains an operation that can panic (`none` = the
+  Rust panics); checked operations are bound with `Option.bind`.  `i32`/`i64` values are `Int`,
+  `u32`/`usize` values are `Nat` (addition / multiplication overflow not modelled, as above), `&str` /
+  `String` are `List Char`, `f64` is an abstract type with the operations of `RFloat`. -/
+
+/-- checked `i32` result (the harness builds the crate with overflow checks) -/
+def i32c (x : Int) : Option Int := if -2147483648 ≤ x ∧ x ≤ 2147483647 then some x else none
+
+/-- checked `u32` / `usize` subtraction -/
+def usub (a b : Nat) : Option Nat := if b ≤ a then some (a - b) else none
+
+/-- `i32::to_string` -/
+def rt_i32_to_string (y : Int) : List Char :=
+  if y < 0 then '-' :: Umya.Dec.decDigits y.natAbs else Umya.Dec.decDigits y.toNat
+
+/-- `&s[a..b]` of an ASCII string; out of range = panic -/
+def rt_slice (s : List Char) (a b : Nat) : Option (List Char) :=
+  if a ≤ b ∧ b ≤ s.length then some ((s.drop a).take (b - a)) else none
+
+/-- `str::parse::<i32>().unwrap()`: optional sign, at least one ASCII digit, range check -/
+def rt_parse_i32 (cs : List Char) : Option Int :=
+  match cs with
+  | '-' :: r => if !r.isEmpty && r.all Umya.Dec.isDigit then i32c (-(Umya.Dec.parseDec r : Int)) else none
+  | '+' :: r => if !r.isEmpty && r.all Umya.Dec.isDigit then i32c (Umya.Dec.parseDec r : Int) else none
+  | _ => if !cs.isEmpty && cs.all Umya.Dec.isDigit then i32c (Umya.Dec.parseDec cs : Int) else none
+
+/-- `[T; N]` indexing; out of bounds = panic -/
+def rt_index {α} (l : List α) (i : Nat) : Option α := l[i]?
+
+/-- the `f64` operations the fragment uses -/
+class RFloat (F : Type) where
+  ofInt : Int → F
+  add : F → F → F
+  sub : F → F → F
+  mul : F → F → F
+  div : F → F → F
+  floor : F → F
+  round : F → F
+  lt : F → F → Bool
+  /-- `as i64` -/
+  toInt : F → Int
+
+/-- chrono's calendar as far as the fragment needs it: the day number of a civil date; a `NaiveDateTime`
+    is its second count, a `Duration` a number of seconds, `+` is integer addition (chrono's range check
+    is outside the model) -/
+structure Chrono where
+  dayNo : Int → Int → Int → Int
+
+def Chrono.midnight (C : Chrono) (y m d : Int) : Int := C.dayNo y m d * 86400
+
+/-- `char::is_whitespace` (Unicode `White_Space`) -/
+def rt_is_whitespace (c : Char) : Bool :=
+  let n := c.toNat
+  (9 ≤ n && n ≤ 13) || n == 0x20 || n == 0x85 || n == 0xA0 || n == 0x1680 ||
+  (0x2000 ≤ n && n ≤ 0x200A) || n == 0x2028 || n == 0x2029 || n == 0x202F || n == 0x205F || n == 0x3000
+
+/-- `str::trim` -/
+def rt_trim (s : List Char) : List Char :=
+  (((s.dropWhile rt_is_whitespace).reverse).dropWhile rt_is_whitespace).reverse
+
+/-- `str::repeat` -/
+def rt_repeat (s : List Char) (n : Nat) : List Char := (List.replicate n s).flatten
+
+/-- `[String]::join(sep)` -/
+def rt_join (sep : List Char) : List (List Char) → List Char
+  | [] => []
+  | [x] => x
+  | x :: y :: r => x ++ sep ++ rt_join sep (y :: r)
+
+/-- `str::replace(&str, &str)` -/
+def rt_replace_str (s pat to : List Char) : List Char := replaceGo pat to 0 s
+
+/-- `str::replace(char, &str)` -/
+def rt_replace_char (s : List Char) (c : Char) (to : List Char) : List Char := replaceChars [c] to s
+
 end Umya.Gen
